@@ -95,6 +95,14 @@ def fmtPts (ps : List Pt) : String := fmtList (fun (p : Pt) => s!"{fmtRat p.1};{
 def parseForm? (s : String) : Option SeqForm :=
   if s = "list" then some .list else if s = "tuple" then some .tuple else none
 
+/-- operand token: a GeoBox token or `GCP=crs` (a non-linear GCPGeoBox) -/
+def parseOperand? (s : String) : Option Operand :=
+  if s = "GCP" then some .nonlinear else (parseGeoBox? s).map Operand.linear
+
+def fmtSetOut {α : Type} (f : α → String) : SetOut α → String
+  | .refused => "REFUSED"
+  | .res r => fmtRes f r
+
 def run (args : List String) : Option String :=
   match args with
   | ["consts"] => pure s!"{fmtRat tolOne} {fmtRat tolZero} {fmtRat tolPix}"
@@ -255,6 +263,38 @@ def run (args : List String) : Option String :=
   | ["interf", form, gs] => do
     let form ← parseForm? form; let gs ← parseList? parseGeoBox? gs
     pure (fmtRes fmtGeoBox (geoboxIntersectionForm form gs))
+  | ["projl", g, crs, pts, tab] => do
+    let g ← parseGeoBox? g; let crs ← parseCrs? crs
+    let pts ← parseList? parsePt? pts; let tab ← parseTable? tab
+    let needed := if crs = none ∨ g.crs = none ∨ crs = g.crs then [] else pts
+    let rp ← reprojOf? tab needed
+    pure (fmtRes (fun (r : Option Nat × List Pt) => s!"{fmtCrs r.1} {fmtPts r.2}") (g.projectL rp crs pts))
+  | ["enclgl", g, crs, pts, tab] => do
+    let g ← parseGeoBox? g; let crs ← parseCrs? crs
+    let pts ← parseList? parsePt? pts; let tab ← parseTable? tab
+    let needed := if crs = none ∨ g.crs = none ∨ crs = g.crs then [] else pts
+    let rp ← reprojOf? tab needed
+    -- empty region: several guards apply at once; which exception wins is a matter of internal step order, only
+    -- "is an error" is compared
+    match pts, g.enclosingGeomL rp crs pts with
+    | [], .error _ => pure "ERR:any"
+    | _, r => pure (fmtRes fmtGeoBox r)
+  | ["bbtocrs", a, dst, tab] => do
+    let a ← parseBBox? a; let dst ← parseNat? dst; let tab ← parseTable? tab
+    let needed := if a.crs = some dst ∨ a.crs = none then [] else a.ringHead :: a.ringTail
+    let rp ← reprojOf? tab needed
+    pure (fmtRes fmtBBoxQ (a.toCrs rp dst))
+  | ["bbboundary", a, n] => do
+    let a ← parseBBox? a; let n ← parseNat? n
+    pure (fmtRes fmtPts (a.boundary n))
+  | ["opd", which, a, b] => do
+    let a ← parseOperand? a; let b ← parseOperand? b
+    match which with
+    | "or" => pure (fmtSetOut fmtGeoBox (a.or b))
+    | "and" => pure (fmtSetOut fmtGeoBox (a.and b))
+    | "roi" => pure (fmtSetOut fmtRoi (a.overlapRoi b tolPix))
+    | "snap" => pure (fmtSetOut fmtGeoBox (a.snapTo b))
+    | _ => none
   | ["sel", n, a, b] => do
     -- Spec/PySlice validation: indices of a length-n axis selected by `a:b`
     let n ← parseNat? n; let a ← parseInt? a; let b ← parseInt? b
